@@ -28,7 +28,9 @@ add("rev-stale-loop", "revert:fb8db3a", "C17,C02", "event loop of the previous r
 add("rev-listener-order", "revert:a878198", "C14", "listener started before the status store (defect found by C14)")
 add("rev-ackid-race", "revert:ce0744a", "C19", "ackId read by Close while the dispatcher stores it (defect found by C19)")
 add("rev-tunepool-idle", "revert:69a0b30", "C18", "TunePool and a finishing worker can empty the idle pool (defect found by C18)")
-add("rev-lifecycle-mutex", "revert:4d9203e", "C14", "lifecycle calls act on a stale status (defect found by C14)")
+add("rev-lifecycle-mutex", "mutants/pinned/F20-no-lifecycle-mutex.diff", "C14", "lifecycle calls act on a stale status (defect found by C14; revert of 4d9203e and of 4e3b81c, which builds on it)")
+add("rev-pause-no-wakeup", "revert:babed52", "C06", "WaitUntilFinished sleeps forever when the worker is paused/stopped with nothing in flight (defect found by C06)")
+add("rev-stale-listener-stop", "revert:4e3b81c", "C14,C09", "listener of an earlier run stops the restarted worker (defect found by C09)")
 # own mutants
 for f in sorted(os.listdir(os.path.join(ROOT, "mutants"))):
     if f.startswith("own-") and f.endswith(".diff"):
@@ -68,7 +70,7 @@ def run(entry):
 with concurrent.futures.ThreadPoolExecutor(max_workers=2) as ex:
     results = list(ex.map(run, catalog))
 lines = ["# Mutant catalogue: which check catches which change", "",
-         f"Generated by `tools/mutsweep.py {tier}` (each change applied to a scratch worktree of /repo, never to /repo; repository suite run once with the change; checks run through VERIF_REPO). Reverts re-introduce the genuine defects repaired by the `fix:` commits; `own-*` are changes written while building the checks (mutants/*.diff); the 77 independently written ones are under seeded/ (see DESIGN.md section 13.5).", "",
+         f"Generated by `tools/mutsweep.py {tier}` (each change applied to a scratch worktree of /repo, never to /repo; repository suite run once with the change; checks run through VERIF_REPO). Reverts re-introduce the genuine defects repaired by the `fix:` commits; `own-*` are changes written while building the checks (mutants/*.diff); the independently written ones are under seeded/ (see DESIGN.md section 13.5).", "",
          "| change | what | repo suite with the change | check: exit (1 = caught) - fingerprints |", "|---|---|---|---|"]
 for name, what, suite, res in results:
     cell = "<br>".join(f"{c}: exit {rc} ({ev} episodes, {w}s) " + "; ".join(fps).replace("|", "&#124;") for c, rc, fps, ev, w in res)
